@@ -61,13 +61,15 @@ Record ms := mkMs {
   m_isdef : bool;          (* the current event is CDeferred *)
   m_lost : bool;           (* a transport error was reported to the connection *)
   m_cancelled : bool;      (* the user cancelled while the hello phase was waiting (pending or ready listen) *)
+  m_complete : bool;       (* SME_STATE_COMPLETE has been reported *)
+  m_idok : bool;           (* the peer has presented exactly the stored SHIP id in the access-methods phase *)
   m_viol : N               (* violations so far: bit c is set iff code c was flagged *)
 }.
 #[export] Instance etaMs : Settable _ :=
-  settable! mkMs <m_role; m_granted; m_last; m_term; m_closed; m_ncb; m_setup; m_idknown0; m_shipid; m_idbad; m_st0; m_idknown; m_isdef; m_lost; m_cancelled; m_viol>.
+  settable! mkMs <m_role; m_granted; m_last; m_term; m_closed; m_ncb; m_setup; m_idknown0; m_shipid; m_idbad; m_st0; m_idknown; m_isdef; m_lost; m_cancelled; m_complete; m_idok; m_viol>.
 
 Definition init_ms (r : role) (idk : bool) : ms :=
-  mkMs r (match r with Client => true | Server => false end) 0 false false 0 false idk false false 0 idk false false false 0.
+  mkMs r (match r with Client => true | Server => false end) 0 false false 0 false idk false false 0 idk false false false false false 0.
 
 Definition flag (code : N) (ok : bool) (m : ms) : ms :=
   if ok then m else m <| m_viol := N.lor (m_viol m) (N.shiftl 1 code) |>.
@@ -87,6 +89,8 @@ Definition V_ID_REPORTED_AGAIN : N := 42.    Definition V_SETUP_TWICE : N := 43.
 Definition V_END_TWICE : N := 50.            Definition V_END_MISSING : N := 51.
 Definition V_END_NEVER_REPORTED : N := 52.
 Definition V_DELIVER_BEFORE_SETUP : N := 60.
+Definition V_DELIVER_BEFORE_COMPLETE : N := 62.
+Definition V_SETUP_ID_NOT_PRESENTED : N := 44.
 Definition V_TIMER_IN_TIMERLESS_STATE : N := 80.
 
 (* the states in which a connection waits with a handshake timer of its own phase *)
@@ -113,8 +117,13 @@ Definition mev (m : ms) (e : cev) : ms :=
                end in
       (* C09: a wrong, missing or undecodable id while one is stored *)
       match acc_of (e) with
-      | Some (AccId false _) | Some AccNoId | Some AccMethodsErr =>
+      | Some (AccId false _) =>
           if m_idknown m && N.eqb (m_st0 m) 36 then m <| m_idbad := true |> else m
+      | Some AccNoId | Some AccMethodsErr =>
+          (* no usable id in the reply: an error whether or not an id is stored *)
+          if N.eqb (m_st0 m) 36 then m <| m_idbad := true |> else m
+      | Some (AccId true _) =>
+          if N.eqb (m_st0 m) 36 then m <| m_idok := true |> else m
       | _ => m
       end.
 
@@ -132,7 +141,7 @@ Definition mstep (m : ms) (o : cobs) : ms :=
                  (* after a terminal outcome only terminal states may follow (abort -> abort done,
                     anything -> error); every other state is progress *)
                  flag V_PROGRESS_AFTER_TERMINAL (negb (m_term m) || terminal_state s) m in
-      m <| m_last := s |> <| m_term := m_term m || terminal_state s |>
+      m <| m_last := s |> <| m_term := m_term m || terminal_state s |> <| m_complete := m_complete m || N.eqb s 38 |>
   | BWrite f ok =>
       if ok then flag V_SENT_AFTER_TERMINAL (negb (m_term m) || closing_frame (m_last m) f) m else m
   | BSetup =>
@@ -140,13 +149,17 @@ Definition mstep (m : ms) (o : cobs) : ms :=
       let m := flag V_SETUP_TWICE (negb (m_setup m)) m in
       let m := flag V_SETUP_WRONG_ID (negb (m_idbad m)) m in
       let m := flag V_ID_NOT_REPORTED (m_idknown0 m || m_shipid m) m in
+      (* C09: with a stored id the device is set up only after the peer has presented exactly it *)
+      let m := flag V_SETUP_ID_NOT_PRESENTED (negb (m_idknown0 m) || m_idok m) m in
       m <| m_setup := true |>
   | BShipId =>
       let m := flag V_ID_REPORTED_AGAIN (negb (m_shipid m) && negb (m_idknown0 m) && negb (m_setup m)) m in
       m <| m_shipid := true |> <| m_idknown := true |>
   | BDeliver =>
       let m := flag V_DELIVER_UNTRUSTED (m_granted m) m in
-      flag V_DELIVER_BEFORE_SETUP (m_setup m) m
+      let m := flag V_DELIVER_BEFORE_SETUP (m_setup m) m in
+      (* C06: only after SME_STATE_COMPLETE has been reported *)
+      flag V_DELIVER_BEFORE_COMPLETE (m_complete m) m
   | BFlush | BBuffer => m
   | BCloseData _ => m <| m_closed := true |>
   | BClosedCb _ =>
@@ -177,7 +190,7 @@ Definition mon_run (m : ms) (tr : list cobs) : ms := fold_left mstep tr m.
 (* violations of one property only: code ranges 10-19 C01, 20-29 C04, 30-39 C08, 40-49 C09,
    50-59 C11, 60-69 C06 *)
 Definition all_codes : list N :=
-  [10;11;12;13;20;21;22;23;24;30;31;40;41;42;43;50;51;52;60;80].
+  [10;11;12;13;20;21;22;23;24;30;31;40;41;42;43;44;50;51;52;60;62;80].
 Definition viol_codes (m : ms) : list N := filter (fun c => N.testbit (m_viol m) c) all_codes.
 Definition viol_in (lo hi : N) (m : ms) : list N :=
   filter (fun c => (lo <=? c) && (c <=? hi)) (viol_codes m).
